@@ -32,6 +32,13 @@ Theorem C04_wrap_identity : forall bs n rho q v ps k,
 Proof. exact wrap_id. Qed.
 Print Assumptions C04_wrap_identity.
 
+(* R9: a key argument q of an index / slice / getpath is rewritten to (q, empty), which forks and therefore
+   defeats the elision of the path markers around one-instruction arguments *)
+Theorem C04_comma_empty : forall bs n rho q v ps k, not_redefined bs rho "empty" 0 ->
+  meq (eval_q bs (S (S (S (S n)))) rho (q_bin q OpComma q_empty) v ps k) (eval_q bs (S (S (S n))) rho q v ps k).
+Proof. exact empty_unit_right. Qed.
+Print Assumptions C04_comma_empty.
+
 (* R3 on operators *)
 Theorem C04_wrap_operands : forall bs n rho o a b v ps k, arith_op o = true ->
   eval_q bs (6 + n) rho (q_bin (wrap a) o (wrap b)) v ps k = eval_q bs (3 + n) rho (q_bin a o b) v ps k.
